@@ -2,7 +2,7 @@ from common import KERNEL, CORR
 
 PROP = dict(
     level="proof",
-    generators=["C19"],
+    generators=["C19", "C07"],   # the AvPacket -> RTMP remuxer ops too: parameter sets and ADTS headers become RTMP sequence headers there
     search_seeds=2,
     search_thorough=False,
     trusted_base=[
